@@ -27,6 +27,9 @@ type c18Case struct {
 	Result  string   `json:"result"`  // Go type of the result
 	Panic   string   `json:"panic,omitempty"`
 	Err     string   `json:"err,omitempty"`
+	// set when a call through a caller-owned variadic slice with spare capacity changes that slice, a later call or
+	// an earlier result
+	Alias string `json:"alias,omitempty"`
 }
 
 func plainSQL(w builder.SQLWriter) (string, string) {
@@ -92,6 +95,39 @@ func runC18(out io.Writer) {
 				c.Result = res.Type().String()
 				w := res.Interface().(builder.SQLWriter)
 				c.SQL, c.Err = plainSQL(w)
+				if ft.IsVariadic() && extra > 0 {
+					// the same call with the variadic arguments in a caller-owned slice that has spare capacity, twice
+					sl := reflect.MakeSlice(ft.In(fixed), extra, extra+3)
+					for j := 0; j < extra; j++ {
+						sl.Index(j).Set(in[fixed+j])
+					}
+					before := make([]any, extra)
+					for j := range before {
+						before[j] = sl.Index(j).Interface()
+					}
+					in2 := append(append([]reflect.Value{}, in[:fixed]...), sl)
+					r1 := f.Fn.CallSlice(in2)[0].Interface().(builder.SQLWriter)
+					s1, _ := plainSQL(r1)
+					r2 := f.Fn.CallSlice(in2)[0].Interface().(builder.SQLWriter)
+					s2, _ := plainSQL(r2)
+					s1again, _ := plainSQL(r1)
+					changed := false
+					for j := range before {
+						if !reflect.DeepEqual(before[j], sl.Index(j).Interface()) {
+							changed = true
+						}
+					}
+					switch {
+					case changed:
+						c.Alias = "the caller's argument slice was modified"
+					case s1 != c.SQL:
+						c.Alias = fmt.Sprintf("through a slice with spare capacity the call renders %q", s1)
+					case s2 != c.SQL:
+						c.Alias = fmt.Sprintf("a second call with the same slice renders %q", s2)
+					case s1again != c.SQL:
+						c.Alias = fmt.Sprintf("after a second call the first result renders %q", s1again)
+					}
+				}
 				// generic constructor with the symbol as emitted
 				if i := strings.IndexByte(c.SQL, '('); i > 0 {
 					sym := c.SQL[:i]
